@@ -6,6 +6,8 @@ import (
 	bleve "github.com/blevesearch/bleve/v2"
 	"github.com/blevesearch/bleve/v2/search"
 	"github.com/blevesearch/bleve/v2/search/query"
+
+	"verif/harness/internal/tlaval"
 )
 
 // Signatures of the deviations from the documented meaning that are described
@@ -134,4 +136,36 @@ func HasMustShouldMin(n *Node) bool {
 		}
 	})
 	return found
+}
+
+// HasK1ShapeTLA: a tree of spec/MCSearchers.tla (parsed TLA+ value) contains a
+// boolean with must, >= 2 should clauses and should-minimum 1 (HasK1 there).
+func HasK1ShapeTLA(v any) bool {
+	m := tlaval.Map(v)
+	kids := func(name string) []any {
+		if x, ok := m[name]; ok {
+			return tlaval.List(x)
+		}
+		return nil
+	}
+	switch tlaval.Str(m["type"]) {
+	case "conj", "disj":
+		for _, k := range kids("qs") {
+			if HasK1ShapeTLA(k) {
+				return true
+			}
+		}
+	case "boolean":
+		if len(kids("must")) > 0 && len(kids("should")) >= 2 && tlaval.Int(m["min"]) == 1 {
+			return true
+		}
+		for _, n := range []string{"must", "should", "mustnot", "filter"} {
+			for _, k := range kids(n) {
+				if HasK1ShapeTLA(k) {
+					return true
+				}
+			}
+		}
+	}
+	return false
 }
